@@ -10,6 +10,7 @@ package c07
 import (
 	"fmt"
 	"reflect"
+	"regexp"
 	"runtime"
 	"strings"
 	"testing"
@@ -106,6 +107,16 @@ func longestList(c *ucfg.Config) int {
 	return max
 }
 
+// recNode is a recursive target type: a setting that refers back to an enclosing object must end in an error,
+// not in unbounded recursion.
+type recNode struct {
+	Name string              `config:"k"`
+	Next *recNode            `config:"o"`
+	A    *recNode            `config:"a"`
+	L    []recNode           `config:"l"`
+	M    map[string]*recNode `config:"n"`
+}
+
 // exercise calls every read entry point on c; only "returns" is asserted.
 func exercise(c *ucfg.Config, opts []ucfg.Option) {
 	var m map[string]interface{}
@@ -118,6 +129,12 @@ func exercise(c *ucfg.Config, opts []ucfg.Option) {
 		L []int       `config:"l"`
 	}
 	c.Unpack(&s, opts...)
+	var rec recNode
+	c.Unpack(&rec, opts...)
+	var recs map[string]*recNode
+	c.Unpack(&recs, opts...)
+	var lists map[string][]string
+	c.Unpack(&lists, opts...)
 	c.FlattenedKeys(opts...)
 	for _, k := range c.GetFields() {
 		c.String(k, -1, opts...)
@@ -175,7 +192,8 @@ var subParseEnum = runlog.Register(&runlog.Sub[ParseCase]{
 
 func TestParseEnum(t *testing.T) { subParseEnum.Enumerate(t, true) }
 
-var hostileFragments = []string{"[", "]", "{", "}", ",", ":", "\"", "'", "\\", "\\\"", "\\\\", "$", "${", "a", "1", "-", " ", "\t", "\n", "null", "true", "1e9", "0x", "-0", "é", "\U0001F600", "\\u00", "\\ud83d", "{a:", "[a,", "'a", "\"a", "a:1", "{a:1,", "[[", "]]", "}}", "{{", "a,b", ", ,", ":a", "{:}", "[,]", "\x00", "\xff"}
+var hostileFragments = []string{"[", "]", "{", "}", ",", ":", "\"", "'", "\\", "\\\"", "\\\\", "$", "${", "a", "1", "-", " ", "\t", "\n", "null", "true", "1e9", "0x", "-0", "é", "\U0001F600", "\\u00", "\\ud83d", "{a:", "[a,", "'a", "\"a", "a:1", "{a:1,", "[[", "]]", "}}", "{{", "a,b", ", ,", ":a", "{:}", "[,]", "\x00", "\xff",
+	"\u00a0", "\u2003", "\u0085", "\f", "\v", "\r", "\u2028", "\ufeff", "[\u00a0]", ",\u2003,", ":\u00a0}", "\r\n"}
 
 func genParseLong(t *rapid.T) ParseCase {
 	n := rapid.IntRange(1, 12).Draw(t, "n")
@@ -486,6 +504,10 @@ type OF struct {
 
 type NStr string
 type NInt int
+type NBool bool
+type NFloat float32
+type NUint uint16
+type NDur time.Duration
 
 var oddBase = map[string]reflect.Type{
 	"chan": reflect.TypeOf(make(chan int)), "func": reflect.TypeOf(func() {}), "complex": reflect.TypeOf(complex128(0)), "uintptr": reflect.TypeOf(uintptr(0)),
@@ -494,12 +516,14 @@ var oddBase = map[string]reflect.Type{
 	"iface": reflect.TypeOf((*interface{})(nil)).Elem(), "*Config": reflect.TypeOf((*ucfg.Config)(nil)), "map[string]*Config": reflect.TypeOf(map[string]*ucfg.Config{}),
 	"int": reflect.TypeOf(int(0)), "string": reflect.TypeOf(""), "bool": reflect.TypeOf(false), "float": reflect.TypeOf(1.5), "dur": reflect.TypeOf(time.Second),
 	"[]byte": reflect.TypeOf([]byte{}), "map[iface]iface": reflect.TypeOf(map[interface{}]interface{}{}), "Config": reflect.TypeOf(ucfg.Config{}),
+	"nbool": reflect.TypeOf(NBool(false)), "nfloat": reflect.TypeOf(NFloat(0)), "nuint": reflect.TypeOf(NUint(0)), "ndur": reflect.TypeOf(NDur(0)),
+	"regexp": reflect.TypeOf((*regexp.Regexp)(nil)), "regexpval": reflect.TypeOf(regexp.Regexp{}), "rec": reflect.TypeOf(recNode{}),
 	"*iface": reflect.TypeOf((*interface{})(nil)), "[]*iface": reflect.TypeOf([]*interface{}{}), "nstr": reflect.TypeOf(NStr("")), "nint": reflect.TypeOf(NInt(0)), "uint8": reflect.TypeOf(uint8(0)), "float32": reflect.TypeOf(float32(0)),
 }
 
 var oddNames = func() []string {
 	names := []string{"chan", "func", "complex", "uintptr", "map[int]", "error", "unsafe", "stringer", "time", "[0]int", "struct{}", "iface", "*Config", "map[string]*Config",
-		"int", "string", "bool", "float", "dur", "[]byte", "map[iface]iface", "nstr", "nint", "uint8", "float32", "*iface", "[]*iface"}
+		"int", "string", "bool", "float", "dur", "[]byte", "map[iface]iface", "nstr", "nint", "uint8", "float32", "*iface", "[]*iface", "nbool", "nfloat", "nuint", "ndur", "regexp", "regexpval", "rec"}
 	return names
 }()
 
